@@ -297,6 +297,7 @@ func runCase(c Case) M {
 			H = append(H, M{"op": "err", "class": e.X["class"]})
 		case "c.hdrret":
 			m["class"] = e.X["class"]
+			H = append(H, M{"op": "hdr", "class": e.X["class"]})
 		case "c.close":
 			H = append(H, M{"op": "close"})
 			if stopAt < 0 {
@@ -379,6 +380,9 @@ func (c *countingReader) Read(p []byte) (int, error) {
 
 var jitterSeed int64
 
+// set per jitter run: records how much input had been consumed when a stop took effect (called right after cancel())
+var jitterMarkStop atomic.Value // func()
+
 // one goroutine class made slow on purpose ("however fast or slow the reader, the decoders and the consumer are"):
 // slowClass 'r' | 'w' | 's' | 0 (none), slowWho = worker index for 'w', slowUS = microseconds per hook
 var slowClass, slowWho, slowUS int64
@@ -389,6 +393,11 @@ func jitterHook() func(string, int, interface{}, int64, int64) {
 		h := fnv.New64a()
 		fmt.Fprintf(h, "%d|%s|%d|%d", atomic.LoadInt64(&jitterSeed), site, who, a)
 		v := h.Sum64()
+		if site == "c.wait?" { // decoder.Close: the internal context has just been cancelled
+			if f, ok := jitterMarkStop.Load().(func()); ok && f != nil {
+				f()
+			}
+		}
 		if sc := atomic.LoadInt64(&slowClass); sc != 0 && int64(site[0]) == sc && (sc != 'w' || int64(who) == atomic.LoadInt64(&slowWho)) {
 			time.Sleep(time.Duration(atomic.LoadInt64(&slowUS)) * time.Microsecond)
 			return
@@ -443,12 +452,13 @@ func runJitter(c Case) M {
 	markStop := func() {
 		atomic.CompareAndSwapInt64(&stopPos, -1, atomic.LoadInt64(&cr.pos))
 	}
+	jitterMarkStop.Store(markStop)
 	if c.CancelStep >= 0 {
 		go func() {
 			time.Sleep(time.Duration(c.CancelStep) * 40 * time.Microsecond)
-			markStop()
 			logH(M{"op": "cancel.b"})
 			cancel()
+			markStop() // input consumed up to the moment the stop took effect
 			logH(M{"op": "cancel.e"})
 		}()
 	}
@@ -459,16 +469,21 @@ func runJitter(c Case) M {
 	go func() {
 		defer close(done)
 		doClose := func() {
-			markStop()
 			logH(M{"op": "close"})
 			closed = true
-			s.Close()
+			s.Close() // the jitter hook marks the stop position at c.wait?, i.e. right after the cancel inside Close
+			markStop()
 			logH(M{"op": "closed"})
 		}
 		for _, op := range c.Script {
 			switch op {
 			case "header":
-				s.Header()
+				_, herr := s.Header()
+				hc := errClass(herr)
+				if herr == io.EOF {
+					hc = "eof"
+				}
+				logH(M{"op": "hdr", "class": hc})
 			case "scan", "scanall":
 				for {
 					logH(M{"op": "call"})
@@ -496,9 +511,9 @@ func runJitter(c Case) M {
 			case "close":
 				doClose()
 			case "cancel":
-				markStop()
 				logH(M{"op": "cancel"})
 				cancel()
+				markStop()
 			}
 		}
 		if !closed {
